@@ -250,6 +250,7 @@ Proof.
       pose proof (conv_items_not_bad p l W). destruct (conv_items p l); [congruence | discriminate].
     + split_matches.
     + split_matches.
+    + split_matches.
   - unfold conv_struct. destruct x; try discriminate.
     + pose proof (conv_fields_not_bad ps l W). destruct (conv_fields ps l); [congruence | discriminate].
     + split_matches.
